@@ -557,6 +557,7 @@ class World:
 
     def op_move(self, op):
         from typhon.files import FileSet
+        from typhon.files.fileset import NoFilesError
         ctx = self.ctx
         n = len(self.specs)
         i = self.pick_fs(op["fs"] % n)
@@ -597,6 +598,21 @@ class World:
         target = self.fs[j] if target_as == "fileset" \
             else G.template_str(dst["template"], self.roots[j])
         before = self.snapshot()
+        if convert == "raises":
+            # a failing conversion must not cost the originals
+            try:
+                self.fs[i].move(target, convert=M.convert_raises, copy=copy,
+                                **kwargs)
+            except M.ConvertError:
+                ctx.label("convert-raises")
+            except NoFilesError:
+                ctx.check(error, "move/NoFilesError-although-files",
+                          lambda: "%r; %s" % (exp, self.where()))
+            else:
+                ctx.check(not exp, "move/failed-conversion-not-reported",
+                          lambda: "%r; %s" % (exp, self.where()))
+            self.verify(before, set(), "move-failed-conversion")
+            return
         done, ret = self.call_selected(
             lambda: self.fs[i].move(target, convert=conv_arg, copy=copy,
                                     **kwargs), error, "move")
